@@ -1108,6 +1108,83 @@ def socks_partial_jobs():
     return [[(n, e)] for n in (0, 1, 2, 3, 4, 7, 10) for e in ('listener-close+conn-close', 'conn-close', 'server-close', 'abort', 'cut')]
 
 
+# ------------------------------------------------------------------ an address listened on again after its listener was closed
+def reuse_case(kind, second_close, ending):
+    """listener L1 is closed (not awaited), L2 is created on the same address, L1 is closed again (what leaving
+    `async with` does) before or after wait_closed(): L2 keeps relaying, and the end of the connection releases it"""
+    w = World('open_connection')
+    viol = []
+    try:
+        w.pair.handshake()
+        w.pair.server_owner = getattr(w, 'srv_owner', None)
+        loop, c = w.loop, w.pair.c
+        ends = []
+        w.run(loop.create_server(lambda: End('B', ends), 'b.example', 80))
+
+        def make():
+            if kind == 'local':
+                return w.run(c.forward_local_port('127.0.0.1', 18031, 'b.example', 80))
+            if kind == 'socks':
+                return w.run(c.forward_socks('127.0.0.1', 18031))
+            raise ValueError(kind)
+        l1 = make()
+        l1.close()
+        if second_close == 'after-wait-closed':
+            w.run(l1.wait_closed())
+        l2 = make()
+        l1.close()
+        loop.flush_all()
+        if kind != 'socks':
+            a = End('A', [])
+            t = loop.create_task(loop.create_connection(lambda: a, '127.0.0.1', 18031))
+            loop.flush_all()
+            if not t.done() or t.exception() is not None:
+                viol.append(('second-listener-dead', 'connecting to the second listener failed'))
+            else:
+                a.t.write(b'ping')
+                loop.flush_all()
+                if not ends or ends[-1].data != b'ping':
+                    viol.append(('second-listener-dead', 'data sent through the second listener did not arrive'))
+                a.t.close()
+                loop.flush_all()
+        wc = loop.create_task(l2.wait_closed())
+        if ending == 'close':
+            c.close()
+        elif ending == 'abort':
+            c.abort()
+        else:
+            loop.cut(w.pair.ct, ConnectionResetError('cut'))
+        loop.flush_all()
+        if not wc.done():
+            viol.append(('listener-wait-closed-hangs', 'wait_closed() of the second listener pending after the connection ended'))
+        left = [a_ for a_ in loop.listeners if isinstance(a_, tuple) and a_[0] == '127.0.0.1']
+        if left:
+            viol.append(('listener-leaked', '%r still bound after the connection ended' % (left,)))
+        if c._local_listeners:
+            viol.append(('listener-registered-on-closed-connection', repr(list(c._local_listeners))))
+        if loop.unretrieved():
+            viol.append(('loop-exception', repr(loop.exc_log[0].get('exception'))[:200]))
+    except Livelock as exc:
+        viol.append(('livelock', str(exc)))
+    finally:
+        w.close()
+    return viol
+
+
+def reuse_worker(job):
+    acc = core.Acc()
+    for case in job:
+        viol = reuse_case(*case)
+        acc.add(core.digest(('reuse',) + tuple(case)), transitions=5)
+        for k, d in viol:
+            acc.violation('forward:%s:address-reused:%s' % (k, case[0]), '%s ; case=%r' % (d, case), {'kind': 'reuse', 'case': list(case)})
+    return acc
+
+
+def reuse_jobs():
+    return [[(k, s_, e)] for k in ('local', 'socks') for s_ in ('before-wait-closed', 'after-wait-closed') for e in ('close', 'abort', 'cut')]
+
+
 def main(tier, seed):
     t0 = core.now()
     kinds = ['local', 'remote', 'local-path', 'remote-path', 'socks5', 'socks4', 'socks4a']
@@ -1143,6 +1220,7 @@ def main(tier, seed):
     acc.merge(core.pmap(slow_worker, slow_jobs(tier)))
     acc.merge(core.pmap(handler_worker, handler_jobs()))
     acc.merge(core.pmap(socks_partial_worker, socks_partial_jobs()))
+    acc.merge(core.pmap(reuse_worker, reuse_jobs()))
     rule = ('forwarding kinds {local, remote, local path, remote path, SOCKS5, SOCKS4, SOCKS4a} x 9 scripted '
             'conversations (duplex writes incl. 300 bytes, half-close in each order, close by either end, EOF before '
             'any data); at every point the explorer may deliver any pending pipe, run the next application action '
@@ -1172,6 +1250,8 @@ def replay(rep):
         acc = perm_worker([(c[0], c[1], c[2], tuple(c[3]))])
         v = acc.violations
         print(json.dumps(v, indent=1, default=repr))
+    elif r['kind'] == 'reuse':
+        acc = reuse_worker([tuple(r['case'])])
     elif r['kind'] == 'socks-partial':
         acc = socks_partial_worker([tuple(r['case'])])
     elif r['kind'] == 'handler':
